@@ -222,6 +222,29 @@ Theorem C04_no_method_reassigns_a_parameter_or_known : forall row e o q,
 Proof. exact parameter_reassignment_known. Qed.
 Print Assumptions C04_no_method_reassigns_a_parameter_or_known.
 
+(* fit (own or inherited) of every class: every completing path returns self and has executed
+   `self._is_fitted = True` as its last act - except the (owner, returns, flag) triples of known_fit
+   (open findings) and benign_fit (reviewed compliant) *)
+Theorem C04_all_fits_return_self_and_set_flag_or_known : forall row o ret flag early,
+  In row class_table -> r_fit row = FF o ret flag early ->
+  early = false /\
+  ((ret = "self" /\ flag = "set") \/ In (o, ret, flag) fit_exceptions).
+Proof. exact fit_contract_or_known. Qed.
+Print Assumptions C04_all_fits_return_self_and_set_flag_or_known.
+
+(* the state machine the fitted-state theorems above are about is the one written in
+   sktime/base/_base.py on this run: flag False after construction, is_fitted returns the flag,
+   apply-type methods raise exactly when check_is_fitted raises, and what it raises is
+   sktime.exceptions.NotFittedError *)
+Theorem C04_state_machine_is_base_estimators :
+  (forall e, base_init_flag = Some (o_fitted (fresh e))) /\
+  base_is_fitted_reads_flag = true /\
+  (forall o m, snd (step o (EApply m)) = NotFitted <-> base_guard_raises (o_fitted o) = true) /\
+  (forall o m, snd (step o (EApply m)) = Result <-> base_guard_raises (o_fitted o) = false) /\
+  base_guard_exception = "sktime.exceptions.NotFittedError".
+Proof. exact base_class_facts_match_model. Qed.
+Print Assumptions C04_state_machine_is_base_estimators.
+
 (* ---- non-vacuity --------------------------------------------------------------------------------- *)
 (* a depth-3 composition of sktime classes is well formed, so the hypotheses above are satisfiable;
    the class table is not empty and more than half of its rows need no exception at all *)
